@@ -960,7 +960,7 @@ def main():
                    "+ interpreter coq/theories/LineLang.v; LineTie.v proves the regenerated function = Csv.load_policy_line for every line and model",
                    "hand-written model coq/theories/Csv.v of adapter.py / file_adapter.py / asyncio/file_adapter.py / "
                    "string_adapter.py (tied by the differential strata W L F R T of this run)"]
-    chk.build(translators=["loadline"])
+    chk.build(translators=["loadline", "adapters"])
     if chk.replay_file:
         return replay(chk)
     if chk.tier == "thorough":
